@@ -217,3 +217,337 @@ def o_c15(rec, world, hist):
 
 
 ORACLES.update({"C06": o_c06, "C07": o_c07, "C10": o_c10, "C13": o_c13, "C15": o_c15})
+
+
+# ---- C16 -------------------------------------------------------------------
+import gc  # noqa: E402
+import weakref  # noqa: E402
+
+from model.observer import RecordingObserver  # noqa: E402
+
+
+class ReleaseMonitor:
+    """At every call start and every 'completed' notification: a result whose
+    consumers have all finished, and which is not part of the requested
+    output, must be dead."""
+
+    def __init__(self, world, sim, rt):
+        self.world = world
+        self.sim = sim
+        self.rt = rt
+        self.nodes = ref.by_id(world)
+        ds = ref.deps_star(world)
+        needed = set()
+        self.keep = set()
+        if world.get("output") is not None:
+            for r in ref.spec_refs(world["output"]):
+                needed.add(r)
+                needed |= ds[r]
+        holders = {}
+        for n in world["nodes"]:
+            if n["id"] not in needed:
+                continue
+            for p in dict.fromkeys(ref.arg_preds(n)):
+                holders.setdefault(p, set()).add(n["id"])
+        self.routes = {}  # producer -> routing nodes that hold its result object
+        self.final = {}   # producer -> set of call ids that ultimately receive (something holding) its result
+        out_refs = set(ref.spec_refs(world["output"])) if world.get("output") is not None else set()
+        for n in world["nodes"]:
+            p = n["id"]
+            if n["kind"] != "call" or n.get("ret", "val") != "val" or p not in needed:
+                continue
+            seen = set()
+            stack = [p]
+            final = set()
+            routes = set()
+            kept = p in out_refs
+            while stack:
+                x = stack.pop()
+                for c in holders.get(x, ()):
+                    if c in seen:
+                        continue
+                    seen.add(c)
+                    if self.nodes[c]["kind"] in ("gather", "unpack", "item"):
+                        if c in out_refs:
+                            kept = True
+                        routes.add(c)
+                        stack.append(c)
+                    elif self.nodes[c]["kind"] == "call":
+                        final.add(c)
+            if kept:
+                self.keep.add(p)
+            self.final[p] = final
+            self.routes[p] = routes
+        # a routing node (gather / unpack / getitem call inserted by uberjob) has
+        # surely finished once some user call that depends on it has started
+        self.after = {}
+        for n in world["nodes"]:
+            if n["kind"] in ("gather", "unpack", "item"):
+                self.after[n["id"]] = {c["id"] for c in world["nodes"]
+                                       if c["kind"] == "call" and n["id"] in ds[c["id"]] and c["id"] in needed}
+        self.started = set()
+        self.finished = set()
+        self.last_ended = {}   # tid -> nid
+        self.violation = None
+        self.checks = 0
+        self.dead_seen = 0
+
+    def on_call_end_hint(self, tid, nid):
+        self.last_ended[tid] = nid
+
+    def on_completed(self, scope):
+        if not (scope and isinstance(scope[-1], str) and scope[-1].startswith("model.build.")):
+            return
+        tid = self.sim.current.tid
+        nid = self.last_ended.pop(tid, None)
+        if nid is not None:
+            self.finished.add(nid)
+        self.check("completed")
+
+    def check(self, where):
+        if self.violation is not None:
+            return
+        self.checks += 1
+        for p, final in self.final.items():
+            if p in self.keep or not final or not (final <= self.finished):
+                continue
+            if any(not (self.after[g] & self.started) for g in self.routes[p]):
+                continue  # a routing consumer may not have run yet
+            w = self.rt.weak.get(p)
+            if w is None:
+                continue
+            if w() is not None:
+                gc.collect()
+            if w() is not None:
+                self.violation = O.V(
+                    "result-retained",
+                    f"result of call {p} is still alive at a {where} boundary although all its consumers "
+                    f"{sorted(final)} have finished and it is not part of the output",
+                )
+                return
+            self.dead_seen += 1
+
+
+class ReleaseObserver(RecordingObserver):
+    def __init__(self, monitor):
+        super().__init__("obs0")
+        self.monitor = monitor
+
+    def increment_completed(self, *, section, scope):
+        super().increment_completed(section=section, scope=scope)
+        if section == "run":
+            self.monitor.on_completed(scope)
+
+
+def gen_c16(seed, tier):
+    desc, rng = base_desc(seed, tier, p_nested=0.35, p_unpack=0.12, p_gather=0.1, p_const=0.05,
+                          out_modes=("node", "node", "struct"))
+    desc["ops"][0]["cfg"].update(max_errors=0, retry=None)
+    return desc
+
+
+def exec_c16(prop, desc):
+    import uberjob
+
+    hist = machine.History(desc)
+    hist.init_sources()
+    tapes = desc.get("tapes") or {}
+    holder = {}
+
+    def hook(sim, rt, built, kwargs):
+        mon = holder["mon"] = ReleaseMonitor(desc["world"], sim, rt)
+        obs = ReleaseObserver(mon)
+        kwargs["progress"] = uberjob.progress.Progress(lambda: obs)
+        rt.on_call_start.append(lambda nid, att: (mon.started.add(nid), mon.check("call-start")))
+        sim.on_event.append(lambda ev: mon.on_call_end_hint(ev[2], ev[4]) if ev[3] == "call-end" else None)
+
+    rec = machine.run_op(hist, desc["ops"][0], 0, tape=tapes.get("0"), sim_hook=hook)
+    mon = holder["mon"]
+    viol = []
+    if mon.violation is not None:
+        viol.append(mon.violation)
+    viol.extend(O.o_term(rec, desc["world"], hist)[:1])
+    res = result(desc, hist, viol)
+    res["stats"]["probes"]["release-checks"] = mon.checks
+    res["stats"]["probes"]["results-confirmed-dead"] = mon.dead_seen
+    return res
+
+
+GEN["C16"] = gen_c16
+EXEC = {"C16": exec_c16}
+
+
+def execute(prop, desc):  # noqa: F811
+    if prop in EXEC:
+        return EXEC[prop](prop, desc)
+    hist = machine.History(desc)
+    hist.init_sources()
+    tapes = desc.get("tapes") or {}
+    viol = []
+    for idx, op in enumerate(desc["ops"]):
+        rec = machine.apply_op(hist, op, idx, tape=tapes.get(str(idx)))
+        if rec is not None:
+            viol.extend(ORACLES[prop](rec, desc["world"], hist))
+            if viol:
+                break
+    return result(desc, hist, viol)
+
+
+# ---- C13: repeated and concurrent runs of one plan, copies -------------------
+def gen_c13(seed, tier):  # noqa: F811
+    rng0 = worldgen.child_rng(seed, "c13")
+    registry = rng0.random() < 0.5
+    mode = rng0.choice(["single", "single", "concurrent", "repeat"])
+    desc, rng = base_desc(seed, tier, registry=registry, faults=(mode == "single" and rng0.random() < 0.5),
+                          p_unpack=0.0 if registry else 0.08)
+    desc["mode"] = mode
+    desc["clients"] = rng0.choice([2, 3])
+    op = desc["ops"][0]
+    if mode == "single" and registry:
+        if rng0.random() < 0.3:
+            op["cfg"]["dry_run"] = True
+        if rng0.random() < 0.3:
+            names = sorted(desc["world"]["stores"])
+            op.setdefault("faults", {})["stores"] = [dict(store=rng0.choice(names), op=rng0.choice(["mtime", "read", "write"]),
+                                                          exc="E1")]
+    if mode == "concurrent":
+        op["cfg"].update(max_errors=0, retry=None)
+        if registry:
+            op["cfg"]["dry_run"] = True
+    return desc
+
+
+class _PR:
+    def __init__(self, plan, registry):
+        self.plan = plan
+        self.registry = registry
+
+
+def exec_c13(prop, desc):
+    import uberjob
+    from simkit import prims
+
+    world = desc["world"]
+    hist = machine.History(desc)
+    hist.init_sources()
+    tapes = desc.get("tapes") or {}
+    viol = []
+    mode = desc.get("mode", "single")
+    op = desc["ops"][0]
+    outs = []
+
+    def wrap(client, sim, rt, built, kwargs):
+        if mode != "concurrent":
+            return client()
+        rt.check_args = True
+        results = [None] * desc["clients"]
+
+        def one(i):
+            try:
+                results[i] = ("ok", uberjob.run(built.plan, **kwargs))
+            except BaseException as e:  # noqa
+                results[i] = ("exc", e)
+                if isinstance(e, sched_abort()):
+                    raise
+
+        threads = [prims.Thread(target=one, args=(i,)) for i in range(1, desc["clients"])]
+        for t in threads:
+            t.start()
+        one(0)
+        for t in threads:
+            t.join()
+        outs.extend(results)
+        return results[0][1] if results[0][0] == "ok" else None
+
+    rec = machine.run_op(hist, op, 0, tape=tapes.get("0"), client_wrap=wrap)
+    viol.extend(O.o_unmodified(rec, world, hist))
+    viol.extend(O.o_term(rec, world, hist)[:1])
+    if not viol and mode == "concurrent" and not op["cfg"].get("dry_run"):
+        seen, stores = ref.evaluate(world, rec.built.objs, sources=rec.extra["sources_at_start"])
+        wants = op["cfg"].get("output", True) and world.get("output") is not None
+        exp = ref.eval_output(world, seen, rec.built.objs) if wants else None
+        from model.core import canon, typed_equal
+
+        for i, r in enumerate(outs):
+            if r is None or r[0] != "ok":
+                viol.append(O.V("concurrent-run-failed", f"client {i} of {len(outs)} concurrent runs of one plan: {r!r}"))
+                break
+            if not typed_equal(r[1], exp):
+                viol.append(O.V("concurrent-run-value", f"client {i}: {canon(r[1])[:200]} != {canon(exp)[:200]}"))
+                break
+        viol.extend(v for v in (O.V(o, m) for o, m in rec.rt.violations))
+    if not viol and mode == "repeat":
+        rec2 = machine.run_op(hist, op, 1, built=rec.built)
+        viol.extend(O.o_unmodified(rec2, world, hist))
+        if not viol and rec.built.registry is None:
+            from model.core import canon
+
+            if canon(rec.result) != canon(rec2.result) or (rec.exc is None) != (rec2.exc is None):
+                viol.append(O.V("rerun-differs", f"second run of the same plan object gave {canon(rec2.result)[:200]} "
+                                                 f"({rec2.exc!r}), first {canon(rec.result)[:200]} ({rec.exc!r})"))
+    if not viol and desc["seed"] % 4 == 0:
+        # render (nxv.render itself is stubbed: GraphViz output is out of scope)
+        import nxv
+
+        b = rec.built
+        before = machine.snapshot(b)
+        real_render = nxv.render
+        nxv.render = lambda graph, style, **kw: (len(graph), bool(style))
+        try:
+            for level in (None, 0, 1, 2):
+                uberjob.render(b.plan, registry=b.registry, level=level, format="svg")
+            uberjob.render(b.plan, predicate=lambda u, d: hash(u) % 2 == 0, level=1)
+            uberjob.render(b.plan.graph, registry=b.registry)
+        except Exception as e:
+            viol.append(O.V("render-raised", f"render raised {e!r}"))
+        finally:
+            nxv.render = real_render
+        d = machine.snapshot_diff(before, machine.snapshot(b))
+        if d:
+            viol.append(O.V("render-modified", f"render changed the caller's Plan/Registry: {d}"))
+    if not viol:
+        # Plan.copy / Registry.copy are independent of their originals (both directions)
+        b = rec.built
+        before = machine.snapshot(b)
+        p2 = b.plan.copy()
+        r2 = b.registry.copy() if b.registry is not None else None
+        cp = _PR(p2, r2)
+        cp.ids, cp.nodes = {}, {}
+        before_copy = machine.snapshot(cp)
+        x = p2.call(len, [1])
+        some = next(iter(b.plan.graph.nodes()), None)
+        if some is not None:
+            p2.add_dependency(some, x)
+            p2.graph.remove_node(some)
+        if r2 is not None:
+            for node, rv in list(r2.mapping.items())[:2]:
+                rv.is_source = not rv.is_source
+            r2.mapping.pop(next(iter(r2.mapping)), None)
+        d = machine.snapshot_diff(before, machine.snapshot(b))
+        if d:
+            viol.append(O.V("copy-not-independent", f"mutating Plan.copy()/Registry.copy() changed the original: {d}"))
+        else:
+            p3 = b.plan.copy()
+            r3 = b.registry.copy() if b.registry is not None else None
+            cp3 = _PR(p3, r3)
+            s3 = machine.snapshot(cp3)
+            y = b.plan.call(len, [2])
+            if some is not None:
+                b.plan.add_dependency(some, y)
+            if b.registry is not None and b.registry.mapping:
+                k0 = next(iter(b.registry.mapping))
+                b.registry.mapping[k0].is_source = not b.registry.mapping[k0].is_source
+            d = machine.snapshot_diff(s3, machine.snapshot(cp3))
+            if d:
+                viol.append(O.V("copy-not-independent", f"mutating the original changed its earlier copy: {d}"))
+    return result(desc, hist, viol)
+
+
+def sched_abort():
+    from simkit.sched import SimAbort
+
+    return SimAbort
+
+
+GEN["C13"] = gen_c13
+EXEC["C13"] = exec_c13
